@@ -54,11 +54,11 @@ theorem after_fire (C : TQContract) (s1 s2 : State) (id : Nat) (rc : Int)
   exact this
 
 theorem mkFireable {C : TQContract} {s s1 : State} {m m' : C05.M} {id : Nat} (hf : s1.fault = false)
-    (he : EnvOk s1.pollq) (ht : s1.trace = s.trace) (hm : C05.run {} s.trace.reverse = .ok m)
+    (ht : s1.trace = s.trace) (hm : C05.run {} s.trace.reverse = .ok m)
     (hs : C05.step m (.cb id) = .ok m') (hr : Rel C m' s1) (hfired : Fired m m') (hstop : m.stop = none) :
     Fireable C (fun _ => True) s1 id := by
   obtain ⟨f1, f2, f3, _⟩ := hfired
-  exact ⟨hf, he, m, m', by rw [ht]; exact hm, hs, hr, by rw [f1]; exact hstop, by rw [f2]; omega, f3, trivial⟩
+  exact ⟨hf, m, m', by rw [ht]; exact hm, hs, hr, by rw [f1]; exact hstop, by rw [f2]; omega, f3, trivial⟩
 
 
 theorem selectTimeout_zero : selectTimeout (some (0, 0)) = 0 := by decide
@@ -77,7 +77,7 @@ theorem mainLoop_weak (C : TQContract) : ∀ (f : Nat) (s : State), Good C LoopT
   | zero => intro s h; exact weak_faulted C _ h.adm
   | succ f ih =>
     intro s hg
-    obtain ⟨hf, he, m, hm, hr, htop⟩ := hg
+    obtain ⟨hf, m, hm, hr, htop⟩ := hg
     -- what happens after any callback was fired from a state `s1` that shares trace/fault/pollq with `s`
     have fire : ∀ (s1 : State) (id : Nat), Fireable C (fun _ => True) s1 id →
         Weak C (fun m _ => Exit (if (doevent s1 id).2 ≠ 0 then ((doevent s1 id).1, (doevent s1 id).2) else mainLoop f (doevent s1 id).1).2 m)
@@ -100,7 +100,7 @@ theorem mainLoop_weak (C : TQContract) : ∀ (f : Nat) (s : State), Good C LoopT
     by_cases hi : s.intr = true
     · -- interrupted
       rw [if_pos hi]
-      refine Or.inl ⟨hf, he, m, hm, hr, ?_⟩
+      refine Or.inl ⟨hf, m, hm, hr, ?_⟩
       have hmi : m.intr = true := by rw [hr.intr]; exact hi
       rcases htop.stopish with h0 | ⟨h0, _⟩
       · exact exit_intr h0 hmi
@@ -131,14 +131,15 @@ theorem mainLoop_weak (C : TQContract) : ∀ (f : Nat) (s : State), Good C LoopT
             · omega
             · exact h2 h0 hsr
           -- the zero-timeout poll
-          obtain ⟨m3, hp⟩ := pollLoop_post C (selectTimeout (some (0, 0))) ({ s with imm := q', net := n2 } : State).pollq
-            { s with imm := q', net := n2 } m hf he hm hr2 hstop (by rw [selectTimeout_zero]; exact checkPoll_zero m)
+          obtain ⟨m3, hp⟩ := pollLoop_post C none ({ s with imm := q', net := n2 } : State).pollq (selectTimeout (some (0, 0)))
+            { s with imm := q', net := n2 } m hf hm hr2 hstop (by rw [selectTimeout_zero]; exact checkPoll_zero m)
+            (by show selectTimeout (some (0, 0)) ≤ 0; rw [selectTimeout_zero]; omega)
           have hs3 : netSelect { s with imm := q', net := n2 } (some (0, 0)) =
-              { pollLoop { s with imm := q', net := n2 } (selectTimeout (some (0, 0))) s.pollq with
-                net := { (pollLoop { s with imm := q', net := n2 } (selectTimeout (some (0, 0))) s.pollq).net with
-                  scan := topScan (pollLoop { s with imm := q', net := n2 } (selectTimeout (some (0, 0))) s.pollq).net } } := rfl
+              { pollLoop { s with imm := q', net := n2 } none (selectTimeout (some (0, 0))) s.pollq with
+                net := { (pollLoop { s with imm := q', net := n2 } none (selectTimeout (some (0, 0))) s.pollq).net with
+                  scan := topScan (pollLoop { s with imm := q', net := n2 } none (selectTimeout (some (0, 0))) s.pollq).net } } := rfl
           rw [hs3]
-          generalize hs1 : pollLoop ({ s with imm := q', net := n2 } : State) (selectTimeout (some (0, 0))) s.pollq = sp at hp
+          generalize hs1 : pollLoop ({ s with imm := q', net := n2 } : State) none (selectTimeout (some (0, 0))) s.pollq = sp at hp
           have hint : sp.intr = false := by
             cases hsi : sp.intr with
             | false => rfl
@@ -162,10 +163,10 @@ theorem mainLoop_weak (C : TQContract) : ∀ (f : Nat) (s : State), Good C LoopT
           · rw [heq4]; dsimp only
             rw [if_neg (by simp [hp.fault])]
             have hnr : m3.nets.any (·.ready) = false := hclear4 rfl
-            rcases timerGet_cases hr4 hp.stop himm3 hnr with ⟨heq5, hexp⟩ | ⟨s5, id, m', heq5, hs, hr5, hfired, e1, e2, e3⟩
+            rcases timerGet_cases hr4 hp.stop himm3 hnr with ⟨heq5, hexp⟩ | ⟨s5, id, m', heq5, hs, hr5, hfired, e1, _, e3⟩
             · -- nothing left to do
               rw [heq5]; dsimp only
-              refine Or.inl ⟨hp.fault, hp.env, m3, hp.run, hr4, ?_⟩
+              refine Or.inl ⟨hp.fault, m3, hp.run, hr4, ?_⟩
               show Exit 0 m3
               unfold Exit
               rw [hp.stop]
@@ -179,13 +180,13 @@ theorem mainLoop_weak (C : TQContract) : ∀ (f : Nat) (s : State), Good C LoopT
               · rintro ⟨_, h⟩; rw [hnr] at h; cases h
               · rintro ⟨_, h⟩; rw [hexp] at h; cases h
             · rw [heq5]; dsimp only
-              exact fire s5 id (mkFireable (by rw [e1]; exact hp.fault) (by rw [e2]; exact hp.env) e3 hp.run hs hr5 hfired hp.stop)
+              exact fire s5 id (mkFireable (by rw [e1]; exact hp.fault) e3 hp.run hs hr5 hfired hp.stop)
           · rw [heq4]; dsimp only
-            exact fire _ id (mkFireable hp.fault hp.env rfl hp.run hs hr4 hfired hp.stop)
+            exact fire _ id (mkFireable hp.fault rfl hp.run hs hr4 hfired hp.stop)
         · rw [heq2]; dsimp only
-          exact fire _ id (mkFireable hf he rfl hm hs hr2 hfired hstop)
+          exact fire _ id (mkFireable hf rfl hm hs hr2 hfired hstop)
       · rw [heq]; dsimp only
-        exact fire _ id (mkFireable hf he rfl hm hs hr1 hfired hstop)
+        exact fire _ id (mkFireable hf rfl hm hs hr1 hfired hstop)
 
 
 /-- the immediate-only path: no poll has happened -/
@@ -213,20 +214,20 @@ theorem immLoop_weak (C : TQContract) : ∀ (f : Nat) (s : State) (id : Nat), Fi
       · rw [if_neg hrc]
         have hrc0 : rc = 0 := by simpa using hrc
         subst hrc0
-        obtain ⟨hf1, he1, m, hm, hr, hfired, hmf, hnp, hst⟩ := h1
+        obtain ⟨hf1, m, hm, hr, hfired, hmf, hnp, hst⟩ := h1
         rw [if_neg (by simp)] at hst
         by_cases hi : s1.intr = true
         · rw [if_pos hi]
           have hmi : m.intr = true := by rw [hr.intr]; exact hi
           rw [if_pos hmi] at hst
-          exact Or.inl ⟨hf1, he1, m, hm, hr, exit_stop hst⟩
+          exact Or.inl ⟨hf1, m, hm, hr, exit_stop hst⟩
         · rw [if_neg hi]
           have hmi : ¬ (m.intr = true) := by rw [hr.intr]; exact hi
           rw [if_neg hmi] at hst
           rw [if_neg (by simp [hf1])]
           rcases immGetS_cases hr hst with ⟨q', heq, hr1, himm⟩ | ⟨q', id', m', heq, hs, hr1, hfd⟩
           · rw [heq]; dsimp only
-            refine Or.inl ⟨hf1, he1, m, hm, hr1, ?_⟩
+            refine Or.inl ⟨hf1, m, hm, hr1, ?_⟩
             show Exit 0 m
             unfold Exit
             rw [hst]
@@ -237,7 +238,7 @@ theorem immLoop_weak (C : TQContract) : ∀ (f : Nat) (s : State) (id : Nat), Fi
           · rw [heq]; dsimp only
             apply ih
             obtain ⟨f1, f2, f3, _, f5, _⟩ := hfd
-            exact ⟨hf1, he1, m, m', hm, hs, hr1, by rw [f1]; exact hst, by rw [f2]; omega, f3,
+            exact ⟨hf1, m, m', hm, hs, hr1, by rw [f1]; exact hst, by rw [f2]; omega, f3,
               by unfold NoPoll at *; rw [f5]; exact hnp⟩
 
 /-- the monitor's state right after `runBegin` -/
@@ -250,21 +251,25 @@ structure Begun (m : C05.M) : Prop where
 
 theorem runInternal_weak (C : TQContract) (fuel : Nat) (s : State) (h : Good C (fun m _ => Begun m) s) :
     Weak C (fun m _ => Exit (runInternal fuel s).2 m) (runInternal fuel s).1 := by
-  obtain ⟨hf, he, m, hm, hr, hb⟩ := h
+  obtain ⟨hf, m, hm, hr, hb⟩ := h
   unfold runInternal
   rcases immGetS_cases hr hb.stop with ⟨q', heq, hr1, himm⟩ | ⟨q', id, m', heq, hs, hr1, hfd⟩
   · rw [heq]; dsimp only
     -- the first, possibly blocking, poll
     have hc := checkPoll_first hr1 himm
-    obtain ⟨m2, hp⟩ := pollLoop_post C (selectTimeout (timerMin ({ s with imm := q' } : State)))
-      ({ s with imm := q' } : State).pollq { s with imm := q' } m hf he hm hr1 hb.stop hc
+    have hw := waitOk_first hr1 himm
+    obtain ⟨m2, hp⟩ := pollLoop_post C (waitStart ({ s with imm := q' } : State) (timerMin ({ s with imm := q' } : State)))
+      ({ s with imm := q' } : State).pollq (selectTimeout (timerMin ({ s with imm := q' } : State)))
+      { s with imm := q' } m hf hm hr1 hb.stop hc hw
+    generalize hwt : waitStart ({ s with imm := q' } : State) (timerMin ({ s with imm := q' } : State)) = wt at hp
     have hs2 : netSelect { s with imm := q' } (timerMin { s with imm := q' }) =
-        { pollLoop { s with imm := q' } (selectTimeout (timerMin { s with imm := q' })) s.pollq with
-          net := { (pollLoop { s with imm := q' } (selectTimeout (timerMin { s with imm := q' })) s.pollq).net with
-            scan := topScan (pollLoop { s with imm := q' } (selectTimeout (timerMin { s with imm := q' })) s.pollq).net } } := rfl
+        { pollLoop { s with imm := q' } wt (selectTimeout (timerMin { s with imm := q' })) s.pollq with
+          net := { (pollLoop { s with imm := q' } wt (selectTimeout (timerMin { s with imm := q' })) s.pollq).net with
+            scan := topScan (pollLoop { s with imm := q' } wt (selectTimeout (timerMin { s with imm := q' })) s.pollq).net } } := by
+      rw [← hwt]; rfl
     rw [hs2]
     apply mainLoop_weak
-    refine ⟨hp.fault, hp.env, m2, hp.run, hp.rel, Or.inl hp.stop, Or.inr ⟨rfl, ?_, ?_⟩⟩
+    refine ⟨hp.fault, m2, hp.run, hp.rel, Or.inl hp.stop, Or.inr ⟨rfl, ?_, ?_⟩⟩
     · intro _ hsr
       rw [hp.sr, hb.sr] at hsr
       exact runnable_mono hp.imms hp.tms hp.clock hsr
@@ -275,7 +280,7 @@ theorem runInternal_weak (C : TQContract) (fuel : Nat) (s : State) (h : Good C (
   · rw [heq]; dsimp only
     apply immLoop_weak
     obtain ⟨f1, f2, f3, _, f5, _⟩ := hfd
-    exact ⟨hf, he, m, m', hm, hs, hr1, by rw [f1]; exact hb.stop, by rw [f2]; omega, f3,
+    exact ⟨hf, m, m', hm, hs, hr1, by rw [f1]; exact hb.stop, by rw [f2]; omega, f3,
       by unfold NoPoll; rw [f5]; exact hb.polled⟩
 
 /-- the monitor's state after `runBegin` -/
@@ -284,11 +289,11 @@ def begunM (m : C05.M) : C05.M :=
 
 theorem eventsRun_weak (C : TQContract) (fuel : Nat) (s : State) (h : Good C (fun _ _ => True) s) :
     Weak C (fun _ _ => True) (eventsRun fuel s) := by
-  obtain ⟨hf, he, m, hm, hr, _⟩ := h
+  obtain ⟨hf, m, hm, hr, _⟩ := h
   unfold eventsRun
   dsimp only
   have h0 : Good C (fun m _ => Begun m) (emit { s with cbcount := 0 } .runBegin) := by
-    refine ⟨hf, he, begunM m, ?_, ?_, ⟨rfl, rfl, rfl, rfl, rfl⟩⟩
+    refine ⟨hf, begunM m, ?_, ?_, ⟨rfl, rfl, rfl, rfl, rfl⟩⟩
     · show C05.run {} (_ :: s.trace).reverse = _
       rw [run_snoc _ m _ _ hm]; rfl
     · exact ⟨hr.clock, hr.intr, hr.imm, hr.immIds, hr.net, hr.tm, hr.disjIN, hr.disjIT, hr.disjNT⟩
@@ -297,23 +302,19 @@ theorem eventsRun_weak (C : TQContract) (fuel : Nat) (s : State) (h : Good C (fu
   | mk s1 rc =>
     rw [hri] at h1
     dsimp only at h1 ⊢
-    rcases h1 with ⟨hf1, he1, m1, hm1, hr1, hex⟩ | ⟨hf1, ha⟩
+    rcases h1 with ⟨hf1, m1, hm1, hr1, hex⟩ | ⟨hf1, ha⟩
     · rw [if_neg (by simp [hf1])]
-      refine Or.inl ⟨hf1, he1, { m1 with inRun := false, intr := false, stop := none, mustFire := false }, ?_, ?_, trivial⟩
+      refine Or.inl ⟨hf1, { m1 with inRun := false, intr := false, stop := none, mustFire := false }, ?_, ?_, trivial⟩
       · show C05.run {} (_ :: s1.trace).reverse = _
         rw [run_snoc _ m1 _ _ hm1]; exact ret_ok m1 rc hex
       · exact ⟨hr1.clock, rfl, hr1.imm, hr1.immIds, hr1.net, hr1.tm, hr1.disjIN, hr1.disjIT, hr1.disjNT⟩
     · rw [if_pos hf1]
       exact Or.inr ⟨hf1, ha⟩
 
-/-- programs in scope: no time passes while a poll is interrupted by a signal (notes/C05.md, finding 1) -/
-def ProgOk (prog : List Top) : Prop := ∀ t ∈ prog, ∀ adv, t = Top.pollAns (.eintr adv) → adv = 0
-
 theorem applyOp_fault (s : State) (o : Op) (h : s.fault = true) : applyOp s o = s := by
   unfold applyOp; simp [h]
 
-theorem stepTop_weak (C : TQContract) (fuel : Nat) (s : State) (t : Top)
-    (ht : ∀ adv, t = Top.pollAns (.eintr adv) → adv = 0) (h : Weak C (fun _ _ => True) s) :
+theorem stepTop_weak (C : TQContract) (fuel : Nat) (s : State) (t : Top) (h : Weak C (fun _ _ => True) s) :
     Weak C (fun _ _ => True) (stepTop fuel s t) := by
   cases t with
   | api o =>
@@ -323,19 +324,13 @@ theorem stepTop_weak (C : TQContract) (fuel : Nat) (s : State) (t : Top)
     · rw [applyOp_fault s o hf]; exact Or.inr ⟨hf, ha⟩
   | script id sc =>
     show Weak C _ { s with scripts := (id, sc) :: s.scripts }
-    rcases h with ⟨hf, he, m, hm, hr, _⟩ | ⟨hf, ha⟩
-    · exact Or.inl ⟨hf, he, m, hm, rel_of_eq hr rfl rfl rfl rfl rfl rfl rfl, trivial⟩
+    rcases h with ⟨hf, m, hm, hr, _⟩ | ⟨hf, ha⟩
+    · exact Or.inl ⟨hf, m, hm, rel_of_eq hr rfl rfl rfl rfl rfl rfl rfl, trivial⟩
     · exact Or.inr ⟨hf, ha⟩
   | pollAns a =>
     show Weak C _ { s with pollq := s.pollq ++ [a] }
-    rcases h with ⟨hf, he, m, hm, hr, _⟩ | ⟨hf, ha⟩
-    · refine Or.inl ⟨hf, ?_, m, hm, rel_of_eq hr rfl rfl rfl rfl rfl rfl rfl, trivial⟩
-      intro b hb adv hbe
-      rcases List.mem_append.mp hb with hb | hb
-      · exact he b hb adv hbe
-      · simp only [List.mem_singleton] at hb
-        subst hb; subst hbe
-        exact ht adv rfl
+    rcases h with ⟨hf, m, hm, hr, _⟩ | ⟨hf, ha⟩
+    · exact Or.inl ⟨hf, m, hm, rel_of_eq hr rfl rfl rfl rfl rfl rfl rfl, trivial⟩
     · exact Or.inr ⟨hf, ha⟩
   | run =>
     show Weak C _ (if s.fault then s else eventsRun fuel s)
@@ -352,22 +347,21 @@ theorem rel_init (C : TQContract) : Rel C {} {} := by
     simp [TimerQueue.empty, Heap.empty]
   · intro id us dl; simp [EventsC04.TmView]
 
-theorem foldl_weak (C : TQContract) (fuel : Nat) : ∀ (prog : List Top) (s : State), ProgOk prog →
+theorem foldl_weak (C : TQContract) (fuel : Nat) : ∀ (prog : List Top) (s : State),
     Weak C (fun _ _ => True) s → Weak C (fun _ _ => True) (prog.foldl (stepTop fuel) s) := by
   intro prog
   induction prog with
-  | nil => intro s _ h; exact h
+  | nil => intro s h; exact h
   | cons t ts ih =>
-    intro s hok h
-    exact ih _ (fun t' ht' => hok t' (List.mem_cons_of_mem _ ht'))
-      (stepTop_weak C fuel s t (hok t List.mem_cons_self) h)
+    intro s h
+    exact ih _ (stepTop_weak C fuel s t h)
 
 /-- every trace of the model is accepted by the C05 monitor -/
-theorem run_admissible (C : TQContract) (fuel : Nat) (prog : List Top) (hok : ProgOk prog) :
+theorem run_admissible (C : TQContract) (fuel : Nat) (prog : List Top) :
     C05.admissible (Model.Events.run fuel prog) = true := by
   have h0 : Weak C (fun _ _ => True) ({} : State) :=
-    Or.inl ⟨rfl, (by intro a ha; cases ha), {}, rfl, rel_init C, trivial⟩
-  obtain ⟨m, hm⟩ := (foldl_weak C fuel prog {} hok h0).adm
+    Or.inl ⟨rfl, {}, rfl, rel_init C, trivial⟩
+  obtain ⟨m, hm⟩ := (foldl_weak C fuel prog {} h0).adm
   unfold C05.admissible Model.Events.run
   rw [hm]
 
